@@ -13,7 +13,9 @@ from concurrent.futures import ThreadPoolExecutor
 VERIF = os.path.dirname(os.path.dirname(os.path.abspath(__file__)))
 OUTSIDE = {"C11-6": "outside the quantifier (see DESIGN 7.6)", "C14-11": "outside the statement: a worker starting during a pause (see DESIGN 7.6)",
            "C12-12": "outside the statement: duplicate insert is fatal in the unchanged code (see DESIGN 7.6)",
-           "C03-12": "thorough tier only (VERIF_N_C03_LONG_IDLE=1)"}
+           "C03-12": "thorough tier only (VERIF_N_C03_LONG_IDLE=1)",
+           "C04-13": "outside the statement: second lq.Start inside one process (see DESIGN 7.6)",
+           "C06-13": "not caught: reddit-specific code path (see DESIGN 7.6)"}
 
 
 def run(name):
